@@ -621,7 +621,7 @@ def task_lemma(args):
         extra = []
         try:
             extra = candidate_search(module, name, fn, [c for c in st.cex if c.get("witness")])
-        except Exception:
+        except (Exception, Unsupported, PathAbort):  # best effort; the engine's control-flow exceptions are BaseExceptions
             extra = []
         if not extra and opts.get("fmode"):
             try:
